@@ -94,14 +94,19 @@ def trace(data, opts, qe, handler=True):
             # the only reference and must keep it alive
             import gc
 
-            h = Reporter(events).on_error
-            gc.collect()
+            h = "method"  # (created in the call below: no local name may keep it alive)
         elif hk == "truthy":
             h = lambda e: (events.append(("err", e)), e)[1]  # noqa: E731 - returns something true
         else:
             h = lambda e: events.append(("err", e))  # noqa: E731
     stream = S.pipe_stream(data) if opts.get("_pipe") else io.BytesIO(data)
-    rd = S.mk_reader(stream, o, h)
+    if h == "method":
+        import gc
+
+        rd = S.mk_reader(stream, o, Reporter(events).on_error)
+        gc.collect()
+    else:
+        rd = S.mk_reader(stream, o, h)
     with S.deadline():
         return _trace_loop(rd, data, qe, events)
 
